@@ -309,7 +309,7 @@ theorem merge_no_new_atoms {c : LitCfg} {e : EqEnv} {sets : List Fields} {fields
 def cfgEx : GenCfg := { lit := cEx, reg := ⟨[], [], []⟩, dictFields := [], dictRegex := [] }
 
 example : optimize cfgEx eEx 10 (.union [.lit true [], .int, .float]) = .ok (.union [.str, .float]) := by
-  simp [optimize, optimizeUnion, splitMembers, removeFirst, Ty.isInt, Ty.isFloat, Ty.isStr, Ty.isUnknown,
+  simp [optimize, optimizeUnion, splitMembers, splitMembersAux, removeFirst, Ty.isInt, Ty.isFloat, Ty.isStr, Ty.isUnknown,
     Ty.isNull, bind, Except.bind, pure, Except.pure, mkUnionMembers, flattenUnion, handleType, hashStr]
 
 end J2M.C02
